@@ -31,7 +31,7 @@ type C08Op struct {
 	Remove []string  `json:"remove,omitempty"`
 	// badincr / badfull: Rules are complete valid rules, followed by a tail that makes the whole
 	// text invalid (Bad: 0 = the last rule once more (duplicate name), 1 = a rule with a syntax
-	// error, 2 = a character the lexer cannot tokenise, 3 = a salience literal beyond int64).
+	// error, 2 = a character the lexer cannot tokenise).
 	// The call must fail and leave the installed set - and everything later calls do - untouched.
 	Bad int `json:"bad,omitempty"`
 }
@@ -87,7 +87,7 @@ func genC08Rules(t *rapid.T, pfx string, step int) []C08Rule {
 func init() {
 	register(&Prop{
 		ID:   "C08",
-		Rule: "operation histories of up to 25 steps on one RuleBuilder: BuildRuleFromString / BuildRuleWithIncremental with 1-5 rules per call over a universe of 8 names and saliences -1..3 (new names, same name same salience, same name changed salience, ties, several rules per call) and RemoveRules with 1-4 names (present, absent, empty list), rejected incremental and full builds whose text holds complete valid rules before the error (duplicate name, syntax error, untokenisable character, salience overflow), re-submission of the byte-identical text of the last full or last incremental build; every rule body reports its compile-time @sal/@desc and returns a tag fresh per (name, build); oracle = model map name -> (salience, description, tag): after every step the sort model must run exactly the model's rules, each once, in non-increasing order of the current saliences, returning the current tags and reporting the current salience/description, IsExist over the whole universe must agree, and the empty set must report 'no rule' without running anything. Non-trivial: the history changes the salience of an existing rule and later performs another incremental build, or >= 2 incremental builds touch one tie group; distinct by case hash",
+		Rule: "operation histories of up to 25 steps on one RuleBuilder: BuildRuleFromString / BuildRuleWithIncremental with 1-5 rules per call over a universe of 8 names and saliences -1..3 (new names, same name same salience, same name changed salience, ties, several rules per call) and RemoveRules with 1-4 names (present, absent, empty list), rejected incremental and full builds whose text holds complete valid rules before the error (duplicate name, syntax error, untokenisable character), re-submission of the byte-identical text of the last full or last incremental build; every rule body reports its compile-time @sal/@desc and returns a tag fresh per (name, build); oracle = model map name -> (salience, description, tag): after every step the sort model must run exactly the model's rules, each once, in non-increasing order of the current saliences, returning the current tags and reporting the current salience/description, IsExist over the whole universe must agree, and the empty set must report 'no rule' without running anything. Non-trivial: the history changes the salience of an existing rule and later performs another incremental build, or >= 2 incremental builds touch one tie group; distinct by case hash",
 		New:  func() interface{} { return &C08Case{} },
 		Gen: func(t *rapid.T) interface{} {
 			c := &C08Case{}
@@ -114,7 +114,7 @@ func init() {
 					if pct(t, pfx+"badfull", 25) {
 						kind = "badfull"
 					}
-					c.Ops = append(c.Ops, C08Op{Kind: kind, Rules: genC08Rules(t, pfx, i), Bad: uni(t, pfx+"badkind", 0, 3)})
+					c.Ops = append(c.Ops, C08Op{Kind: kind, Rules: genC08Rules(t, pfx, i), Bad: uni(t, pfx+"badkind", 0, 2)})
 				case k <= 6:
 					c.Ops = append(c.Ops, C08Op{Kind: "incr", Rules: genC08Rules(t, pfx, i)})
 				default:
